@@ -13,7 +13,7 @@
 From Coq Require Import List Arith NArith Bool Lia.
 From NngV Require Import Gen.Consts Base.ListX Base.Bytes Codec.Staged Codec.IovModel Codec.IovProofs
   Codec.SpFrameModel Codec.SpFrameProofs Codec.SpNegoProofs Codec.SpHeaderProofs
-  Codec.SpConnModel Codec.SpConnProofs
+  Codec.SpConnModel Codec.SpConnProofs Codec.SpLedgerModel Codec.SpLedgerProofs
   Proto.Common Proto.ReqRepBacktrace Proto.SurveyBacktrace Proto.PairModel
   Codec.WsFrameModel Codec.WsMsgModel Codec.WsProofs Codec.HttpLineModel Codec.HttpProofs.
 Import ListNotations.
@@ -175,6 +175,31 @@ Proof.
 Qed.
 Print Assumptions only_offender_dropped_partial.
 
+(* --------------------------------------------------- nothing stays behind *)
+(* The ledger of one connection (descriptor, the transport's pipe reference,
+   list membership, the message being filled) under the release actions the
+   source has (C11_NEGO_ERR_RELEASES, tied below): on EVERY byte stream, every
+   cutting, a connection that has reached the dropped state holds nothing, a
+   live one holds exactly [held], and its going away at any point (EOF, reset,
+   negotiation timeout) empties the ledger.  Correspondence: the flood family
+   of checks/c11.py (descriptor count back at the baseline, listener still
+   accepting under a lowered RLIMIT_NOFILE). *)
+Theorem dropped_connection_ledger_empty : forall cfg ps,
+  exists st l, lconn_feed_all cfg good (linit cfg) ps = Some (st, l) /\
+    (st = CClosed -> l = []) /\ l = held st /\ snd (lconn_eof good (st, l)) = [].
+Proof. exact dropped_means_empty. Qed.
+Print Assumptions dropped_connection_ledger_empty.
+
+(* without the nni_pipe_rele of the negotiation error path every refused
+   handshake keeps its descriptor and its pipe *)
+Theorem nego_error_path_without_rele_refuted :
+  let cfg := mkCC (mkRxCfg KTcp 0 1000) 80 81 PrPlain 1 in
+  lconn_feed_all cfg (mkLF false) (linit cfg) [[78; 79; 84; 45; 83; 80; 33; 33]] = Some (CClosed, [RFd; RPipeRef]) /\
+  lconn_feed_all cfg good (linit cfg) [[78; 79; 84; 45; 83; 80; 33; 33]] = Some (CClosed, []) /\
+  snd (lconn_eof (mkLF false) (linit cfg)) = [RFd; RPipeRef].
+Proof. exact nego_leak_without_rele. Qed.
+Print Assumptions nego_error_path_without_rele_refuted.
+
 (* ------------------------------------------------ WebSocket / HTTP (C16) *)
 (* the WebSocket frame decoder and the HTTP head parser are total functions of
    the byte stream, independent of its segmentation; after the first rule
@@ -197,7 +222,7 @@ Theorem c11_consts_match :
   (DISC_TYPE, DISC_REFUSED, DISC_MSGSIZE, DISC_NEGO, DISC_PROTO, DISC_NOBUF) =
     (C11_UDP_DISC_TYPE, C11_UDP_DISC_REFUSED, C11_UDP_DISC_MSGSIZE, C11_UDP_DISC_NEGO, C11_UDP_DISC_PROTO, C11_UDP_DISC_NOBUF) /\
   N.of_nat UDP_HDR = C11_UDP_HDR_LEN /\ C11_UDP_DATA_CHECKS = true /\
-  C01_RX_CHECKS_BEFORE_ALLOC = true /\ C01_IPC_TYPE_CHECK = true /\
+  C01_RX_CHECKS_BEFORE_ALLOC = true /\ C01_IPC_TYPE_CHECK = true /\ C11_NEGO_ERR_RELEASES = true /\
   MAX_STREAM_MSGSZ = C01_MAX_STREAM_MSGSZ /\ sp_header 0 = C01_NEGO_HEADER /\
   (NNG_EPROTO, NNG_EMSGSIZE, NNG_ECONNSHUT) = (C01_NNG_EPROTO, C01_NNG_EMSGSIZE, C01_NNG_ECONNSHUT).
 Proof. repeat split; reflexivity. Qed.
